@@ -49,6 +49,11 @@ def c05_matrix(ctx):
         # interplay: thermalisation + time-dependent drives + screening + probes + a save interval that does not divide the run
         dict(dev="bar", k=4, steps=9, adaptive=True, dt=2.0 ** -6, dt_max=0.1, probes=3, current=4.0, current_ramp=0.08, field=0.4,
              field_ramp=0.1, skip=3, screening=True),
+        # numerical edge of the stop rule: solve/skip times that are exact decimal multiples of a non-dyadic step
+        dict(dev="film", k=3, steps=10, adaptive=False, dt=0.01, probes=0, current=0.0, field=0.2, exact_times=True),
+        dict(dev="bar", k=4, steps=8, adaptive=False, dt=0.011, probes=2, current=1.0, field=0.1, exact_times=True, skip=7),
+        dict(dev="film", k=2, steps=9, adaptive=False, dt=0.025, probes=0, current=0.0, field=0.2, exact_times=True),
+        dict(dev="film", k=5, steps=11, adaptive=False, dt=0.02, probes=0, current=0.0, field=0.2, exact_times=True),
         # history: second solve() on the same TDGLSolver object (fixed and adaptive step)
         dict(dev="bar", k=3, steps=8, adaptive=False, dt=2.0 ** -6, probes=2, current=2.0, field=0.2, second_solve=True),
         dict(dev="bar", k=2, steps=7, adaptive=True, dt=2.0 ** -6, dt_max=0.1, probes=3, current=3.0, field=0.3, skip=3, second_solve=True),
@@ -82,6 +87,13 @@ def natural_run(tdgl, p, base_tmp=None):
     # rule cannot depend on rounding: steps*dt - dt/2 for fixed steps, a plain value otherwise
     solve_time = p.get("solve_time", max(0.0, p["steps"] * dt - (dt / 2 if p["steps"] else 0)))
     skip_time = p.get("skip", 0) * dt - (dt / 2 if p.get("skip", 0) else 0)
+    if p.get("exact_times"):
+        # the requested times are exact multiples of a NON-dyadic step: the floating-point running sum of the
+        # steps may fall short of them by rounding (ten steps of 0.01 give 0.09999999999999999 < 0.1); the
+        # property speaks about the time the run actually accumulates, so the abstraction of the stop rule
+        # (first step count whose accumulated float time >= solve_time) decides, not decimal arithmetic
+        solve_time = p["steps"] * dt
+        skip_time = p.get("skip", 0) * dt
     opts = tdgl.SolverOptions(
         solve_time=solve_time, skip_time=skip_time, dt_init=dt, dt_max=p.get("dt_max", 0.1),
         adaptive=p.get("adaptive", False), adaptive_window=p.get("window", 3), save_every=k,
